@@ -39,13 +39,14 @@ DOG_ITEMS = [
     "r: sub { x }", "r: sub { x: y }", "r: l", "r: ll", "...F", "...G", "... on Dog { r: n }",
     "r: m(ps: [{p: 1, q: 2}])", "r: m(ps: [{q: 2, p: 1}])", "r: m(pp: [[{q: 2, p: 1}], []])",
     "same { r: name }", "same { ...Q }", "owner { ...A }", "owner { r: name ...A }", "r: sub { ...F }", "same { r: nick t: n }",
+    "r: __typename", "x: __typename", "same { r: __typename }",
 ]
 CAT_ITEMS = [
     "x", "y", "r: x", "r: y", "r: z", "r: n", "r: a(i: 1)", "r: sub { x }", "r: sub { x: n }", "r: l", "r: ll", "...H", "... on Cat { r: n }",
-    "same { ...Q }", "owner { ...B }",
+    "same { ...Q }", "owner { ...B }", "r: __typename", "y: __typename",
 ]
 PET_ITEMS = [None, "name", "r: n", "...P", "r: name", "same { ...Q }", "owner { ...A ...B }", "same { r: name }", "owner { ...B ...A }", "same { t: name ...Q }"]
-CAT_QUICK = ["x", "r: x", "r: y", "r: n", "r: a(i: 1)", "r: sub { x }", "r: l", "...H", "same { ...Q }", "owner { ...B }"]
+CAT_QUICK = ["x", "r: x", "r: y", "r: n", "r: a(i: 1)", "r: sub { x }", "r: l", "...H", "same { ...Q }", "owner { ...B }", "r: __typename"]
 PET_QUICK = [None, "r: n", "...P", "same { ...Q }", "owner { ...A ...B }", "same { t: name ...Q }"]
 FTYPE = {"F": "Dog", "G": "Dog", "K": "Dog", "H": "Cat", "P": "Pet", "Q": "Pet", "A": "Pet", "B": "Pet", "C": "Pet"}
 # fragment environments: name -> body
@@ -111,11 +112,11 @@ def schema():
     return _schema
 
 
-def judge(src, res, viol):
+def judge(src, res, viol, no_location=False):
     from graphql import parse, validate
     from graphql.validation import OverlappingFieldsCanBeMergedRule
 
-    doc = parse(src)
+    doc = parse(src, no_location=no_location)
     res.evaluations += 1
     res.executions += 1
     try:
@@ -128,7 +129,7 @@ def judge(src, res, viol):
         return
     want = overlap.conflicts(schema(), doc)
     if impl != want:
-        viol("implementation_accepts_conflict" if want else "implementation_rejects_mergeable", src,
+        viol(("implementation_accepts_conflict" if want else "implementation_rejects_mergeable") + (":no_location" if no_location else ""), src,
              f"rule reports {'a conflict' if impl else 'no conflict'}, the specification's algorithm finds {'a conflict' if want else 'none'}")
         return
     res.count("conflicting" if want else "conflict_free")
@@ -175,6 +176,9 @@ def run_shard(shard, tier):
                     res.states += 1
                     res.transitions += 1
                     judge(make_doc(env, ds, c, p), res, viol)
+                    if n % 5 == 0:
+                        # the same document parsed without locations: structurally equal nodes then compare (and hash) equal
+                        judge(make_doc(env, ds, c, p), res, viol, no_location=True)
                     if tier == "thorough" or n % 4 == 0:
                         judge(make_doc(env, ds, c, p, reverse=True), res, viol)
     if d1 == 0:
@@ -190,4 +194,5 @@ def replay(payload):
         out.append({"signature": sig, "summary": f"{src}: {summary}"})
 
     judge(payload["source"], res, viol)
+    judge(payload["source"], res, viol, no_location=True)
     return out
